@@ -42,7 +42,7 @@ def add_threaded(rng, c):
 def generate(rng, tier):
     quick = tier != 'thorough'
     cases = []
-    n = 230 if quick else 4000
+    n = 200 if quick else 4000
     for i in range(n):
         c = NC.gen_relay(rng, profile='teardown', handler='http',
                          n_events=rng.choice([8, 12, 18, 26]) if quick else rng.choice([12, 30, 60, 100]))
@@ -163,7 +163,7 @@ def extra_checks(rng, tier):
                                 if interleave:
                                     e['w'] = ['client']; e['c_send'] = dr[k % len(dr)]; k += 1
                                 evs.append(e); t += 1
-                            for j in range(60):
+                            for j in range(170):          # enough effective writes for ack + all pieces at max_send = 1
                                 evs.append(dict(now=t, r=[], w=['client'], c_send=dr[(k + j) % len(dr)] if j < 20 else 100000, probe=t)); t += 1
                             case = dict(kind='relay', profile='exhaustive', handler='http', max_send=m, timeout=10, t0=T0, threaded=False,
                                         web=False, connect=[], sel=[], events=evs, exchange='connect')
